@@ -15,9 +15,9 @@
     C04_areal_cfg_*             finite regression anchors by kernel evaluation (not the property)
     C04_areal_roundtrip_f64     the round-trip half for double: for every areal<nbits,es,bt> with es ≤ 7, fbits ≤ 50, nbits ≤ 64 and
                                 every encoding that is not an inf / NaN pattern: areal(to_native(b)) = b with the ubit cleared
-                                (through C18_encloses_outside_D13_f64 and the uniqueness of the enclosing encoding)
+                                (through C18_encloses_every_f64 and the uniqueness of the enclosing encoding)
     C04_areal_roundtrip_inf_qnan  ±inf and the quiet-NaN encoding round-trip (every configuration)
-    C04_areal_roundtrip_snan_counterexample   the signalling-NaN encoding does NOT round-trip (D13, known finding)
+    C04_areal_roundtrip_snan                  the signalling-NaN encoding round-trips too (D13 repaired: every NaN payload is recognised)
   Not proved
     the float round trip (same argument with the float instance of the region lemma; checked per `tof` line by the driver).
   es ≥ 8 is outside: `1ull << -exponent` has a shift count ≥ 64 there (undefined behaviour, D13) — never executed.
@@ -200,11 +200,11 @@ theorem C04_areal_lower_bound_f32 (c : Model.Cfg) (hes : 1 ≤ c.es) (hes7 : c.e
     · decide
   exact C04_areal_lower_bound c f32 hfit (by decide) hes hn b hb
 
-/-- C04, areal clause, round trip through `double`: for every areal<nbits,es,bt> with es ≤ 7, fbits ≤ 50 and every encoding
+/-- C04, areal clause, round trip through `double`: for every areal<nbits,es,bt> with es ≤ 7, fbits ≤ 52 and every encoding
     that is not an inf / NaN pattern, converting `to_native<double>()` back gives the encoding with the ubit cleared
     (the lower bound of the interval is an exact areal value and is recovered exactly). -/
 theorem C04_areal_roundtrip_f64 (c : Model.Cfg) (hes : 1 ≤ c.es) (hes7 : c.es ≤ 7) (hn : c.es + 3 ≤ c.nbits)
-    (hw : 1 ≤ c.w) (hW : c.nbits ≤ 64) (hst : c.nrBlocks = 1 ∨ c.nrBlocks ≤ 65 / c.w) (hsr : c.fbits + 1 < 52)
+    (hw : 1 ≤ c.w) (hW : c.nbits ≤ 64) (hst : c.nrBlocks = 1 ∨ c.nrBlocks ≤ 65 / c.w) (hsr : c.fbits ≤ 52)
     (b : Nat) (hb : b < 2 ^ c.nbits)
     (hnan : b % 2 ^ (c.nbits - 1) ≠ 2 ^ (c.nbits - 1) - 1) (hinf : b % 2 ^ (c.nbits - 1) ≠ 2 ^ (c.nbits - 1) - 2) :
     Model.assignF64 c (Model.toNative c f64 b) = b - b % 2 := by
@@ -277,9 +277,7 @@ theorem C04_areal_roundtrip_f64 (c : Model.Cfg) (hes : 1 ≤ c.es) (hes7 : c.es 
         (by have : eMin f64 = -1074 := by decide
             rw [this]; omega) (by decide))
       hes hn b hb hzero hnan hinf
-    have hreg := region_false_of_value c (Model.toNative c f64 b) (expOf sc b) (fracOf sc b) hes hes7 hn hsr he
-      (by rw [← hFF]; exact hfr) (by rw [← hFF]; exact hnotlast) t1 t3
-    have henc1 := C18_encloses_outside_D13_f64 c (Model.toNative c f64 b) hes hn hw hW hst hsr hreg
+    have henc1 := C18_encloses_every_f64 c (Model.toNative c f64 b) hes hn hw hW hst
     -- the source value of d is the lattice value with the sign of b
     obtain ⟨g1, g2, g3⟩ := f64_fields (Model.toNative c f64 b)
     have hsrc : srcOfF64 (Model.toNative c f64 b) =
@@ -355,10 +353,35 @@ theorem C04_areal_roundtrip_inf_qnan (c : Model.Cfg) (hn : 4 ≤ c.nbits) (s : B
       simp [h1, h2, show ¬ (2 ^ (c.nbits - 1) - 1 = 0) by omega]
     rw [hd, i3]
 
-/-- the round trip FAILS for the signalling-NaN encoding (D13): `to_native` returns numeric_limits::signaling_NaN(), whose
-    payload `operator=(double)` does not recognise; witness areal<6,2,uint8_t>, encoding 0b111111 ↦ 0b011101 -/
-theorem C04_areal_roundtrip_snan_counterexample :
-    Model.assignF64 ⟨6, 2, 8⟩ (Model.toNative ⟨6, 2, 8⟩ f64 0x3f) = 0x1d := by decide +kernel
+/-- the round trip of the signalling-NaN encoding (every configuration): `to_native` returns numeric_limits::signaling_NaN()
+    (payload 0x4000000000000, quiet bit clear), which the repaired `operator=(double)` maps to the signalling NaN encoding
+    (the pinned code converted it as a number: D13, former counterexample areal<6,2,uint8_t> 0b111111 ↦ 0b011101) -/
+theorem C04_areal_roundtrip_snan (c : Model.Cfg) (hn : 4 ≤ c.nbits) :
+    Model.assignF64 c (Model.toNative c f64 (Model.setnanSignalling c)) = Model.setnanSignalling c := by
+  have h4 : 4 ≤ 2 ^ (c.nbits - 1) := by
+    calc 4 = 2 ^ 2 := rfl
+      _ ≤ 2 ^ (c.nbits - 1) := Nat.pow_le_pow_right (by omega) (by omega)
+  have hN : 2 ^ c.nbits = 2 * 2 ^ (c.nbits - 1) := by
+    rw [show c.nbits = (c.nbits - 1) + 1 by omega, Nat.pow_succ]; simp; ring
+  have i3 : Model.assignF64 c (f64.eAll * 2 ^ f64.fbits + 2 ^ (f64.fbits - 2)) = Model.setnanSignalling c := by
+    unfold Model.assignF64
+    have e1 : ((f64.eAll * 2 ^ f64.fbits + 2 ^ (f64.fbits - 2)) >>> 52) % 2048 = 2047 := by decide
+    have e2' : (f64.eAll * 2 ^ f64.fbits + 2 ^ (f64.fbits - 2)) % 4503599627370496 = 1125899906842624 := by decide
+    have e3 : (1125899906842624 : Nat) &&& 2251799813685248 = 0 := by decide
+    simp [e1, e2', e3]
+  have hd : Model.toNative c f64 (Model.setnanSignalling c) = f64.eAll * 2 ^ f64.fbits + 2 ^ (f64.fbits - 2) := by
+    unfold Model.toNative Model.setnanSignalling
+    have hv : 2 ^ c.nbits - 1 = 2 ^ (c.nbits - 1) + (2 ^ (c.nbits - 1) - 1) := by omega
+    have h1 : (2 ^ (c.nbits - 1) + (2 ^ (c.nbits - 1) - 1)) % 2 ^ (c.nbits - 1) = 2 ^ (c.nbits - 1) - 1 := by
+      rw [Nat.add_mod_left]; exact Nat.mod_eq_of_lt (by omega)
+    have h2 : (2 ^ (c.nbits - 1) + (2 ^ (c.nbits - 1) - 1)).testBit (c.nbits - 1) = true := by
+      rw [Nat.testBit_two_pow_add_eq, Nat.testBit_lt_two_pow (by omega)]; rfl
+    simp only [hv, h1, h2]
+    simp [show ¬ (2 ^ (c.nbits - 1) - 1 = 0) by omega]
+  rw [hd, i3]
+
+-- the former counterexample, now positive: areal<6,2,uint8_t>, encoding 0b111111 round-trips
+example : Model.assignF64 ⟨6, 2, 8⟩ (Model.toNative ⟨6, 2, 8⟩ f64 0x3f) = 0x3f := by decide +kernel
 
 /-- special encodings, every configuration and both native types: ±0 keep their sign, ±inf, NaN -/
 theorem C04_areal_specials (c : Model.Cfg) (f : Fmt) (hn : 4 ≤ c.nbits) (s : Bool) :
